@@ -1436,6 +1436,16 @@ def run_C15(ctx):
         r = sc.run(year, sc.request_for(sd, year, kind) if k % 4 else ['1040', 'nc_d-400'], pol)
         r['kind'], r['scenario_seed'] = kind, sd
         extra.append(r)
+    # the NC consumer-use-tax worksheet with records: credit for tax paid elsewhere below, near and above the NC tax
+    for year in (2021, 2022, 2023):
+        for j, (purch, pct, other) in enumerate([('1000', '.0725', '95'), ('250.40', '.07', '30'), ('18000', '.075', '0'), ('5000', '.0675', '337.5')]):
+            sd = f'{ctx.seed}/c15/usetax/{year}/{j}'
+            pol, kind = sc.gen_policy(sd, year, kind='plain')
+            pol.fixed.update({'1040.number_1098': '1', 'no_consumer_use_tax': 'no', 'full_records': 'yes', 'out_of_state_purchases': purch,
+                              'county_tax_pct': pct, 'other_state_sales_tax': other})
+            r = sc.run(year, ['1040', 'nc_d-400'], pol)
+            r['kind'], r['scenario_seed'] = 'nc-usetax', sd
+            extra.append(r)
     for r in runs + extra:
         if r['exception'] is None and r['ok'] and to.nonneg_inputs(r):
             solved += 1
